@@ -159,6 +159,7 @@ func (s *DB) Put(key, val []byte) error {
 	if err != nil {
 		return err
 	}
+	verifPoint("db.put.afterBatchPut")
 
 	return s.updateBatchWithIncrement()
 }
@@ -173,11 +174,13 @@ func (s *DB) Get(key []byte) ([]byte, error) {
 	if s.batch.IsRemoved(key) {
 		return nil, common.ErrKeyNotFound
 	}
+	verifPoint("db.get.betweenBatchReads")
 
 	data := s.batch.Get(key)
 	if data != nil {
 		return data, nil
 	}
+	verifPoint("db.get.beforeDbRead")
 
 	data, err := db.Get(key, nil)
 	if err == leveldb.ErrNotFound {
@@ -200,11 +203,13 @@ func (s *DB) Has(key []byte) error {
 	if s.batch.IsRemoved(key) {
 		return common.ErrKeyNotFound
 	}
+	verifPoint("db.has.betweenBatchReads")
 
 	data := s.batch.Get(key)
 	if data != nil {
 		return nil
 	}
+	verifPoint("db.has.beforeDbRead")
 
 	has, err := db.Has(key, nil)
 	if err != nil {
